@@ -53,7 +53,7 @@ def _js(x, depth=0):
 # operation under test so that history-dependent defects become reachable.
 
 PREFIX_OPS = ["quantise", "quantise_same", "qnl", "normalise", "cutoff", "pad", "transpose", "set_channel", "scale", "copy",
-              "read_abs", "read_rel", "iter_abs_velocity_edit", "iter_rel_velocity_edit", "merge_empty", "concat_copy"]
+              "read_abs", "read_rel", "iter_abs_velocity_edit", "iter_rel_velocity_edit", "merge_empty", "concat_copy", "touch_defaults"]
 
 
 def random_prefix(rng, n=(0, 3), same_steps=None):
@@ -127,6 +127,13 @@ def apply_prefix(s, ops):
         elif n == "concat_copy":
             from vmon import gen as _g
             s.concatenate([_g.build_seq({"notes": op["notes"], "extra": []}).copy()])
+        elif n == "touch_defaults":
+            # other parts of the library use (and sort) the shared default lists: state living outside the object
+            from scoda.tokenisation.notelike_tokenisation import MultiTrackLargeVocabularyNotelikeTokeniser as _Tok
+            from scoda.misc.util import get_default_note_values, get_default_step_sizes
+            _Tok(pitch_range=(60, 61))          # the tokeniser sorts the default lists it was handed, in place
+            get_default_note_values()
+            get_default_step_sizes()
         elif n == "merge_empty":
             from scoda.sequences.sequence import Sequence
             s.merge([Sequence()])
